@@ -268,7 +268,12 @@ func TestC12(t *testing.T) {
 	// ---- every envelope sequence over the alphabet, each followed by the probe
 	maxLen := 3
 	nAlpha := len(svAlphabet(1, 2, 3, 0))
-	for _, seq := range svSeqs(nAlpha, maxLen) {
+	for si, seq := range svSeqs(nAlpha, maxLen) {
+		// quick: every sequence of length <= 2 and a seeded third of those of length 3; thorough: all
+		if len(seq) == 3 && !thorough() && (uint64(si)*2654435761+uint64(*flagSeed))%3 != 0 {
+			idx++
+			continue
+		}
 		var frames []*FrameSpec
 		tags := []string{"exhaustive", fmt.Sprintf("len=%d", len(seq))}
 		for pos, k := range seq {
@@ -279,6 +284,38 @@ func TestC12(t *testing.T) {
 		}
 		frames = append(frames, svProbe(901))
 		run("seq", frames, tags)
+	}
+
+	// ---- several sources on one connection: the registry is ONE id space per connection, whatever the source
+	// names are (also names and ids whose concatenations coincide: "c-1"+"12" = "c-11"+"2" = "c-"+"112")
+	type sid struct {
+		src string
+		id  uint64
+	}
+	pairs := []sid{{"c-1", 12}, {"c-11", 2}, {"c-1", 2}, {"c-111", 2}, {"c-11", 12}, {"c-", 112}, {"c-1", 112}}
+	for ai, a := range pairs {
+		for bi, b := range pairs {
+			if ai == bi {
+				continue
+			}
+			for _, order := range []string{"ab", "ba"} {
+				mk := func(p sid, body *int64, trl bool) *FrameSpec {
+					f := &FrameSpec{Id: p.id, Hdr: "ok:0", Method: mBidi, Src: p.src, Dst: "dst", Body: body}
+					if trl {
+						f.Status, f.Trl = &[2]int64{0, 0}, "ok:0"
+					}
+					return f
+				}
+				frames := []*FrameSpec{mk(a, nil, false), mk(b, nil, false)}
+				if order == "ab" {
+					frames = append(frames, mk(a, i64(801), false), mk(b, i64(802), false), mk(a, nil, true), mk(b, nil, true))
+				} else {
+					frames = append(frames, mk(b, i64(802), false), mk(a, i64(801), false), mk(b, nil, true), mk(a, nil, true))
+				}
+				frames = append(frames, svProbe(908))
+				run("sources", frames, []string{"sources", fmt.Sprintf("sameid=%v", a.id == b.id), "order:" + order})
+			}
+		}
 	}
 
 	// ---- thorough: a seeded sample of the sequences of length 4
@@ -415,6 +452,43 @@ func TestC12(t *testing.T) {
 					}
 					runWalk("leftover", svDrainProbe(script, svProbe(907)), []string{"leftover", fmt.Sprintf("unconsumed=%d", k), "last:" + last, fmt.Sprintf("sameid=%v", sameID), fmt.Sprintf("late=%v", late)})
 				}
+			}
+		}
+	}
+
+	// ---- the transport blocks (a peer that is slow to read): an envelope parks the writer in Write, then envelopes
+	// arrive that must be answered with a reset; virtual time passes; the transport unblocks: every reset due MUST
+	// have been written (nothing may give up because time passed)
+	for _, park := range []string{"unary-reply", "stream-msg"} {
+		for _, stray := range []string{"body", "badmd-open", "two-bodies"} {
+			for _, d := range []int64{10, 1000, 60000, 3600000} {
+				acts := []SAct{{Op: "wblock", On: true}}
+				if park == "unary-reply" {
+					acts = append(acts, SAct{Op: "deliver", F: &FrameSpec{Id: 7, Hdr: "ok:0", Method: mUnary, Src: "src", Dst: "dst", Body: i64(810)}},
+						SAct{Op: "hstep", H: 0, Hop: &HopSpec{Op: "return", Rep: i64(810)}})
+				} else {
+					acts = append(acts, SAct{Op: "deliver", F: &FrameSpec{Id: 1, Hdr: "ok:0", Method: mBidi, Src: "src", Dst: "dst"}},
+						SAct{Op: "hstep", H: 0, Hop: &HopSpec{Op: "send", B: 811}})
+				}
+				switch stray {
+				case "body":
+					acts = append(acts, SAct{Op: "deliver", F: &FrameSpec{Id: 41, Hdr: "ok:0", Method: mBidi, Src: "src", Dst: "dst", Body: i64(812)}})
+				case "badmd-open":
+					acts = append(acts, SAct{Op: "deliver", F: &FrameSpec{Id: 41, Hdr: "bad", Method: mBidi, Src: "src", Dst: "dst"}})
+				case "two-bodies":
+					acts = append(acts, SAct{Op: "deliver", F: &FrameSpec{Id: 41, Hdr: "ok:0", Method: mBidi, Src: "src", Dst: "dst", Body: i64(812)}},
+						SAct{Op: "deliver", F: &FrameSpec{Id: 42, Hdr: "ok:0", Method: mCStr, Src: "src2", Dst: "dst", Body: i64(813)}})
+				}
+				acts = append(acts, SAct{Op: "tick", D: d}, SAct{Op: "wblock", On: false}, SAct{Op: "tick", D: d})
+				pos := 0
+				script := func(r *svRig, step int) *SAct {
+					if pos < len(acts) {
+						pos++
+						return &acts[pos-1]
+					}
+					return nil
+				}
+				runWalk("slowpeer", svDrainProbe(script, svProbe(909)), []string{"slowpeer", "park:" + park, "stray:" + stray, fmt.Sprintf("tick=%dms", d)})
 			}
 		}
 	}
